@@ -643,7 +643,7 @@ def replay_native(c, conc, warmup=None, rng=None):
     rep = {}
     env = dict(conc)
     prepared = False
-    if c.init is not None and any(isinstance(v, RecValue) for v in env.values()):
+    if c.init is not None and any(isinstance(v, RecValue) for v in env.values()) and not c.init_after_prepare:
         try:
             native_by_name(c.init, env)       # derived fields of record parameters (same text as in the symbolic run)
         except Exception as e:
@@ -679,6 +679,11 @@ def replay_native(c, conc, warmup=None, rng=None):
             rep['confirmed'] = False
             rep['note'] = 'concretised input cannot be turned into real objects: %r' % (e,)
             return rep
+    if c.init is not None and c.init_after_prepare:
+        try:
+            native_by_name(c.init, env)       # history prefix on the real object (e.g. an earlier method call)
+        except Exception as e:
+            rep['init_error'] = repr(e)
     if c.requires is not None:
         try:
             ok = bool(native_by_name(c.requires, env))
